@@ -15,9 +15,11 @@ from . import ast, exceptions
 RuleDecorator = TypeVar("RuleDecorator", bound=Callable[..., Any])
 
 _RWS = r"\s+"
-_INTEGER = r"[+-]?\d+"
-_DATE = r"\d{4}-(?:0\d|1[0-2])-(?:[0-2]\d|3[01])"
-_TIME = r"(?:[01]\d|2[0-3]):[0-5]\d(:?:[0-5]\d(?:\.\d{1,12})?)"
+# NOTE: `[0-9]` and not `\d`: on `str` patterns `\d` also matches every other
+# Unicode decimal digit (fullwidth, Arabic-Indic, ...), which are no OData digits.
+_INTEGER = r"[+-]?[0-9]+"
+_DATE = r"[0-9]{4}-(?:0[0-9]|1[0-2])-(?:[0-2][0-9]|3[01])"
+_TIME = r"(?:[01][0-9]|2[0-3]):[0-5][0-9](:?:[0-5][0-9](?:\.[0-9]{1,12})?)"
 
 # Defines known functions and min/max nr of args:
 ODATA_FUNCTIONS = {
@@ -120,7 +122,7 @@ class ODataLexer(Lexer):
     ####################################################################################
 
     @_(
-        r"duration'[+-]?P(?:\d+Y)?(?:\d+M)?(?:\d+D)?(?:T(?:\d+H)?(?:\d+M)?(?:\d+(?:\.\d+)?S)?)?'"
+        r"duration'[+-]?P(?:[0-9]+Y)?(?:[0-9]+M)?(?:[0-9]+D)?(?:T(?:[0-9]+H)?(?:[0-9]+M)?(?:[0-9]+(?:\.[0-9]+)?S)?)?'"
     )
     def DURATION(self, t):
         ":meta private:"
@@ -153,13 +155,13 @@ class ODataLexer(Lexer):
         t.value = ast.Geography(t.value[10:-1])
         return t
 
-    @_(r"[\da-f]{8}-[\da-f]{4}-[\da-f]{4}-[\da-f]{4}-[\da-f]{12}")
+    @_(r"[0-9a-f]{8}-[0-9a-f]{4}-[0-9a-f]{4}-[0-9a-f]{4}-[0-9a-f]{12}")
     def GUID(self, t):
         ":meta private:"
         t.value = ast.GUID(t.value)
         return t
 
-    @_(_DATE + r"T" + _TIME + r"?(Z|[+-](?:[01]\d|2[0-3]):[0-5]\d)?")
+    @_(_DATE + r"T" + _TIME + r"?(Z|[+-](?:[01][0-9]|2[0-3]):[0-5][0-9])?")
     def DATETIME(self, t):
         ":meta private:"
         # The lexer is case insensitive, but `T` and `Z` are expected in upper case
@@ -179,7 +181,7 @@ class ODataLexer(Lexer):
         t.value = ast.Time(t.value)
         return t
 
-    @_(_INTEGER + r"((?:(?:\.\d+)(?:e[-+]?\d+))|(?:\.\d+)|(?:e[-+]?\d+))")
+    @_(_INTEGER + r"((?:(?:\.[0-9]+)(?:e[-+]?[0-9]+))|(?:\.[0-9]+)|(?:e[-+]?[0-9]+))")
     def DECIMAL(self, t):
         ":meta private:"
         t.value = ast.Float(t.value)
